@@ -8,6 +8,8 @@ import c02 as _c02mod  # noqa  (universe of past formulas)
 
 
 def main():
+    import astlib
+    astlib.AUTO_FUNCS = 0.2       # sqrt exp ln log pow at exact points in a fifth of the generated formulas
     rep = core.Report("C10")
     quick = core.tier() == "quick"
     F, dup = _c02mod.universe()
